@@ -49,15 +49,19 @@ PROPS["C09"] = {
     "trusted": ["compress/flate, snappy, hash/crc32 (model parameter `compress`; harness inflates with direct library calls)"],
 }
 PROPS["C16"] = {
-    "lean_modules": ["AvroModel.Props.C16"],
-    "required_theorems": ["accepted_prefix", "error_surfaces", "runFrom_surfaces", "writeAll_sim", "step_sim", "runFrom_sim", "accepted_eq_take", "crash_consistent", "crash_delivers_prefix", "crash_ok_only_at_boundary"],
+    "lean_modules": ["AvroModel.Props.C16", "AvroModel.Props.C16b"],
+    "required_theorems": ["accepted_prefix", "error_surfaces", "runFrom_surfaces", "writeAll_sim", "step_sim", "runFrom_sim", "accepted_eq_take", "crash_consistent", "crash_delivers_prefix", "crash_ok_only_at_boundary",
+                          "direct_accepted_prefix", "direct_error_surfaces", "direct_fault_free", "fwRunFrom_sim", "fwRunFrom_surfaces"],
     "harness": [("ENC16", "C16")],
     "level_text": "Proof: for every failing write index k, every number of bytes accepted by the failing call, every call history and any "
                   "compressor, what the writer accepted is a byte-for-byte prefix of the fault-free output (simulation between the faulty and the "
                   "fault-free run), and the call reported as failed is exactly the one that issued write k (earlier calls succeed). Tie: for each "
                   "generated history every k from 1 to the number of writes (+1) is executed against the real encoder with an injected failing "
                   "io.Writer (0 / some / all bytes accepted); error identity via errors.Is; accepted bytes compared with the implementation's own "
-                  "fault-free run after substituting the sync marker.",
+                  "fault-free run after substituting the sync marker. The same two clauses are proved for the file writer driven directly "
+                  "(C16b: histories of WriteHeader / WriteBlock with any row count, empty blocks included) and tied by the fwd stream: every failing "
+                  "write index of generated direct histories against the real FileWriter, compared with the model on which call fails and how many writes "
+                  "were accepted whole; a panic is a failing input.",
     "level_note": "Trusted: Lean kernel; model assumes each w.Write error is checked and returned at once (shape of writeAll) - validated by the exhaustive-per-history fault injection.",
     "rule": "Same history generator as C09; per history every failing write index k (exhaustive) x acceptance length {0, random proper prefix, all}.",
     "trusted": ["compress/flate, snappy determinism (fault-free and faulty runs compress identically)"],
@@ -606,7 +610,7 @@ _EXTRA_RULES = {
     "C12": " Also: op 9 (file whose records mostly allocate nothing, selective closing, retained records), callbacks that close their bank and return an error, goroutines renaming their own SchemaForType results, regstorm (8 goroutines x 250 registrations of distinct types, each used at once).",
     "C14": " Also: every document is read as the avro.schema entry of a container header through FileSchema (twice, the first result edited by the caller in between); the slice returned by the previous Marshal is re-checked after the next call.",
     "C15": " Also: a registered union with null last, unnamed registered types ([]T, map[string]T), double registration, determinism probes (registry before/after, schema twice, caller renaming its result in between), Schema.Codec called with a pointer, a typed nil pointer and a value.",
-    "C16": " Also: injected error kinds (plain, Timeout()-typed, joined with os.ErrDeadlineExceeded), blocks above 64 KiB and 128 KiB, 63..129 records per block, a recording writer with a Flush() method. Round 9: scenario direct-blocks-fault (FileWriter driven directly: WriteHeader, WriteBlock with row counts 0, 1, 0, 3; failure at every write index with 0 or 1 bytes accepted).",
+    "C16": " Also: injected error kinds (plain, Timeout()-typed, joined with os.ErrDeadlineExceeded), blocks above 64 KiB and 128 KiB, 63..129 records per block, a recording writer with a Flush() method. Round 9: stream fwd and scenario direct-blocks-fault (FileWriter driven directly: WriteHeader, WriteBlock with row counts 0..3 incl. empty blocks; failure at every write index and one past the end, 0 or 1 bytes accepted).",
     "C17": " Also: Skip of every built integer codec on every valid and malformed varint (op int-s).",
     "C18": " Also: the library's string-codec route decodes every case from one reused backing array; an invalid neighbour (month before, day + 32) is parsed immediately before every third valid date-only string.",
     "C19": " Also: every decode case decodes the value twice into a struct with two *time.Time fields; every long-w case writes the value through a [null, T] field too. Round 8: every date-w case writes the value through a [null, date] field too.",
